@@ -29,7 +29,9 @@ VARS = ["a", "b"]
 PRELUDE = '''import contextlib
 
 
-def span(n, *_):
+def span(n, *values):
+    if values:
+        print("span", *values)
     return range(n)
 
 
@@ -44,11 +46,15 @@ def configs(t: str) -> List[Tuple[str, dict]]:
     full = dict(reads='{{}, {"a"}, {"b"}}', leaf='{"asg", "aug", "use", "break", "continue"}', comp='{"if", "while", "for", "with"}', tw='{""}')
     small = dict(reads='{{}, {"a"}}', leaf='{"asg", "use", "break"}', comp='{"if", "while", "for"}', tw='{""}')
     walrus = dict(reads='{{}, {"a"}}', leaf='{"asg", "use", "break", "return"}', comp='{"if", "while"}', tw='{"", "a", "b"}')
+    two = dict(reads='{{}, {"a"}}', leaf='{"aug", "use"}', comp='{"for", "while"}', tw='{""}', two="TRUE")
     if t == "quick":
         return [("depth1", dict(full, depth=1, pairs="FALSE", pre="TRUE", post="TRUE")),
+                ("two-loops", dict(two, depth=1, pairs="FALSE", pre="FALSE", post="TRUE")),
                 ("depth2-small", dict(small, depth=2, pairs="FALSE", pre="FALSE", post="TRUE")),
                 ("depth1-walrus-return", dict(walrus, depth=1, pairs="FALSE", pre="TRUE", post="TRUE"))]
     return [("depth1-pairs", dict(full, depth=1, pairs="TRUE", pre="TRUE", post="TRUE")),
+            ("two-loops", dict(two, reads='{{}, {"a"}, {"b"}}', leaf='{"asg", "aug", "use", "break"}', comp='{"for", "while", "if"}', depth=1,
+                               pairs="FALSE", pre="FALSE", post="TRUE")),
             ("depth2-small", dict(small, depth=2, pairs="FALSE", pre="TRUE", post="TRUE")),
             ("depth2-aug-continue", dict(reads='{{}, {"b"}}', leaf='{"asg", "aug", "continue", "break"}', comp='{"if", "while", "for"}', tw='{""}',
                                          depth=2, pairs="FALSE", pre="FALSE", post="TRUE")),
@@ -63,6 +69,7 @@ def cases(rep, t: str) -> List[dict]:
                         f"MC_Leaf == {c['leaf']}", f"MC_Comp == {c['comp']}", f"MC_TW == {c['tw']}", "====", ""])
         cfg = "\n".join(["CONSTANTS", "  Vars <- MC_Vars", "  Reads <- MC_Reads", "  LeafKinds <- MC_Leaf", "  Compounds <- MC_Comp", "  TestWrites <- MC_TW",
                          f"  Depth = {c['depth']}", f"  PairBodies = {c['pairs']}", f"  Pre = {c['pre']}", f"  Post = {c['post']}",
+                         f"  TwoLoops = {c.get('two', 'FALSE')}",
                          "INIT Init", "NEXT Next", "INVARIANT Sane", "INVARIANT Dump", "CHECK_DEADLOCK FALSE", ""])
         res = run_tlc("DataflowMC", cfg, generated_files={"DataflowMC.tla": mc}, timeout_s=3000, keep_stdout=False, heap_gb=12)
         rep.add_tlc(res, f"Dataflow {label}")
@@ -79,9 +86,10 @@ def cases(rep, t: str) -> List[dict]:
 class _Render:
     """Statement texts; every assignment gets a constant of its own so that values tell which assignment ran."""
 
-    def __init__(self, runnable: bool):
+    def __init__(self, runnable: bool, ret: str = "a, b"):
         self.k = 0
         self.runnable = runnable
+        self.ret = ret
 
     def const(self) -> int:
         self.k += 10
@@ -105,7 +113,7 @@ class _Render:
             elif k in ("break", "continue"):
                 out.append(pad + k)
             elif k == "return":
-                out.append(pad + ('return a, b, "early"' if self.runnable else "return"))
+                out.append(pad + (f'return {self.ret}, "early"' if self.runnable else "return"))
             elif k == "if":
                 out.append(pad + f"if {self.test(s)}:")
                 out += self.block(s["body"], ind + 4)
@@ -139,11 +147,13 @@ def snippet(rec: dict) -> str:
 VECTORS = [list(v) for v in itertools.product((True, False), repeat=3)]
 
 
-def program(rec: dict) -> str:
-    """The case as a program that prints what the snippet computes for every resolution of its tests and loop lengths."""
-    body = "\n".join(_Render(True).block(rec["prog"], 4))
-    return (PRELUDE + "def run(conds, n):\n    it = iter(conds)\n\n    def cond(*_):\n        return next(it, False)\n\n"
-            "    a = -1\n    b = -2\n" + body + "\n    return a, b\n\n\n"
+def program(rec: dict, ret: str = "a, b") -> str:
+    """The case as a program that prints what the snippet computes for every resolution of its tests and loop lengths.
+    Tests print the values they read; `ret` names the variables that are still needed when the snippet is done."""
+    body = "\n".join(_Render(True, ret).block(rec["prog"], 4))
+    return (PRELUDE + "def run(conds, n):\n    it = iter(conds)\n\n    def cond(*values):\n        if values:\n            print(\"test\", *values)\n"
+            "        return next(it, False)\n\n"
+            "    a = -1\n    b = -2\n" + body + f"\n    return {ret}\n\n\n"
             "for first in (True, False):\n    for second in (True, False):\n        for third in (True, False):\n"
             "            for n in (0, 1, 2):\n                print(run([first, second, third], n))\n")
 
@@ -152,12 +162,13 @@ MODULE_VECTORS = [([False, False, False], 0), ([True, False, True], 2), ([False,
 _HEADER = "VEC, N = {vec}, {n}\n"
 
 
-def program_module(rec: dict) -> str:
+def program_module(rec: dict, ret: str = "a, b") -> str:
     """The case as module-level code (the analysis is applied to module bodies and function bodies alike, the rules treat
     the two differently).  One input vector per text: with_vector() swaps it."""
-    body = "\n".join(_Render(True).block(rec["prog"], 0))
+    body = "\n".join(_Render(True, ret).block(rec["prog"], 0))
     return (_HEADER.format(vec=MODULE_VECTORS[0][0], n=MODULE_VECTORS[0][1]) + PRELUDE +
-            "it = iter(VEC)\nn = N\n\n\ndef cond(*_):\n    return next(it, False)\n\n\na = -1\nb = -2\n" + body + "\nprint(a, b)\n")
+            "it = iter(VEC)\nn = N\n\n\ndef cond(*values):\n    if values:\n        print(\"test\", *values)\n    return next(it, False)\n\n\n"
+            "a = -1\nb = -2\n" + body + f"\nprint({ret})\n")
 
 
 def with_vector(text: str, k: int):
